@@ -224,6 +224,107 @@ func c08(c *core.Ctx) {
 		if n < 2 {
 			c.Missing("client stream types with a RecvMsg that receives from a message channel (in-process and HTTP)")
 		}
+		// a receive that finds the stream already closed does not report success: a return on the "state == closed"
+		// edge is a non-nil error — and where it is an error kept in a field, every place that enters the closed state
+		// stores a non-nil error into that field in the same step
+		for _, nt := range cts {
+			if pkgSuffixOf(nt) != "inprocgrpc" {
+				continue
+			}
+			tn := nt.Obj().Name()
+			var fam []*ssa.Function
+			seenF := map[*ssa.Function]bool{}
+			for _, root := range []string{"RecvMsg", "Header"} {
+				for _, f := range methodFamily(p, nt, root) {
+					if !seenF[f] {
+						seenF[f] = true
+						fam = append(fam, f)
+					}
+				}
+			}
+			isEOF := func(v ssa.Value) bool { g, ok := core.GlobalLoad(v); return ok && g == "io.EOF" }
+			// the closed constant: the one stored on an io.EOF edge
+			closedK, haveK := int64(0), false
+			stateFld := ""
+			type stStore struct {
+				fn *ssa.Function
+				st *ssa.Store
+			}
+			var closers []stStore
+			for _, f := range fam {
+				core.Instrs(f, func(in ssa.Instruction) {
+					st, ok := in.(*ssa.Store)
+					if !ok {
+						return
+					}
+					base, fld, isF := core.FieldOf(st.Addr)
+					k, isC := core.ConstInt(st.Val)
+					if !isF || !isC || core.NamedOf(base.Type()) != tn || core.NamedOf(st.Val.Type()) == "" {
+						return
+					}
+					if core.GuardedBy(st, func(fc core.Fact) bool { return fc.Op == token.EQL && (isEOF(fc.X) || isEOF(fc.Y)) }) {
+						closedK, haveK, stateFld = k, true, fld
+					}
+				})
+			}
+			if !haveK {
+				continue
+			}
+			for _, f := range fam {
+				core.Instrs(f, func(in ssa.Instruction) {
+					if st, ok := in.(*ssa.Store); ok {
+						if base, fld, isF := core.FieldOf(st.Addr); isF && fld == stateFld && core.NamedOf(base.Type()) == tn {
+							if k, isC := core.ConstInt(st.Val); isC && k == closedK {
+								closers = append(closers, stStore{f, st})
+							}
+						}
+					}
+				})
+			}
+			for _, f := range fam {
+				for _, r := range core.ErrReturns(f) {
+					onClosed := core.GuardedBy(r, func(fc core.Fact) bool {
+						if fc.Op != token.EQL {
+							return false
+						}
+						base, fld, isF := core.FieldOf(fc.X)
+						k, isC := core.ConstInt(fc.Y)
+						return isF && isC && fld == stateFld && k == closedK && core.NamedOf(base.Type()) == tn
+					})
+					if !onClosed {
+						continue
+					}
+					ev := r.Results[len(r.Results)-1]
+					key := core.FuncName(f) + ":return-on-closed-state:non-nil"
+					if core.ClassifyErr(ev, r) == core.ErrNonNil {
+						c.Ok(key, r.Pos(), "a receive on the closed state returns a non-nil error")
+						continue
+					}
+					// an error kept in a field: set non-nil wherever the closed state is entered?
+					_, efld, isF := core.FieldOf(ev)
+					bad := ""
+					if !isF {
+						bad = "the value returned on the closed state may be nil"
+					} else {
+						for _, cl := range closers {
+							paired := false
+							for _, in := range cl.st.Block().Instrs {
+								if s2, isS := in.(*ssa.Store); isS {
+									if b2, f2, ok2 := core.FieldOf(s2.Addr); ok2 && f2 == efld && core.NamedOf(b2.Type()) == tn && core.ClassifyErr(s2.Val, s2) == core.ErrNonNil {
+										paired = true
+									}
+								}
+							}
+							// the closed state entered inside a helper that takes the error: the helper stores its parameter
+							if !paired {
+								bad = core.FuncName(cl.fn) + " enters the closed state without storing a non-nil error into " + efld
+							}
+						}
+					}
+					c.Check(bad == "", key, r.Pos(), "the error kept for the closed state is set non-nil wherever that state is entered", "a receive that finds the stream closed returns the error kept in a field, but "+bad+": the receive reports success (an empty message) although no response was delivered")
+				}
+			}
+		}
 		// the probe sees every response: the HTTP reply reader hands over every frame, empty ones included
 		if httpReaderHandsOverEveryFrame(c) == 0 {
 			c.Fail("httpgrpc:reply-reader-loop", token.NoPos, "ANCHOR-MISSING: no loop in httpgrpc that reads size prefaces and hands message bytes to a channel")
@@ -259,6 +360,13 @@ func c08(c *core.Ctx) {
 		}
 		c.EndRule()
 	}
+
+	// ---------------------------------------------------------------- R4, R5 (shared)
+	// over HTTP "no response" of a unary method (a nil result fails to encode) must reach the caller as an error:
+	// the failure path carries the status header / a failing HTTP status (C14/R3), and the error renderer runs only
+	// with a non-OK status that was put on the wire first (C14/R5)
+	c.Borrow("C14", map[string]string{"R3": "R4", "R5": "R5"}, c14)
+
 }
 
 // singlePolarity: for bool value v in fn, returns (isFlagExpr, singleWhenTrue).
